@@ -964,20 +964,7 @@ func (di *dynInterp) call(f *ssa.Function, c *ssa.Call, get func(ssa.Value) aval
 // reflect.Value restricts the kinds reaching the call to legal ones (finite-domain flow of the kind value).
 func (di *dynInterp) kindGuarded(c *ssa.Call, method string) bool {
 	legal := kindLegal[method]
-	recv := c.Call.Args[0]
-	f := c.Parent()
-	var kv ssa.Value
-	core.EachInstr(f, func(i ssa.Instruction) {
-		if k, ok := i.(*ssa.Call); ok {
-			if g := core.StaticCallee(k); g != nil && core.QualName(g) == "reflect.Value.Kind" && k.Call.Args[0] == recv {
-				kv = k
-			}
-		}
-	})
-	if kv == nil {
-		return false
-	}
-	set := kindSetAt(kv, c.Block())
+	set := di.kindsOf(c.Call.Args[0], c.Block(), 0)
 	if set == nil {
 		return false
 	}
@@ -987,6 +974,84 @@ func (di *dynInterp) kindGuarded(c *ssa.Call, method string) bool {
 		}
 	}
 	return true
+}
+
+// kindsOf: the kinds a reflect.Value of unknown origin can have on entry to block blk — from the tests on its
+// Kind() in the function itself, intersected, for a parameter of an unexported function, with what every call
+// site establishes for the argument (an extracted helper keeps the guard at its caller). nil = nothing known.
+func (di *dynInterp) kindsOf(recv ssa.Value, blk *ssa.BasicBlock, depth int) map[int]bool {
+	f := blk.Parent()
+	var set map[int]bool
+	var kv ssa.Value
+	core.EachInstr(f, func(i ssa.Instruction) {
+		if k, ok := i.(*ssa.Call); ok {
+			if g := core.StaticCallee(k); g != nil && core.QualName(g) == "reflect.Value.Kind" && k.Call.Args[0] == recv {
+				kv = k
+			}
+		}
+	})
+	if kv != nil {
+		set = kindSetAt(kv, blk)
+	}
+	prm, isParam := recv.(*ssa.Parameter)
+	if !isParam || depth > 3 {
+		return set
+	}
+	pf := prm.Parent()
+	if pf == nil || pf.Parent() != nil || pf.Object() == nil || pf.Object().Exported() {
+		return set
+	}
+	idx := -1
+	for k, q := range pf.Params {
+		if q == prm {
+			idx = k
+		}
+	}
+	var fromCallers map[int]bool
+	sites := 0
+	okAll := true
+	for _, caller := range di.p.Funcs {
+		core.EachInstr(caller, func(i ssa.Instruction) {
+			switch x := i.(type) {
+			case ssa.CallInstruction:
+				if core.StaticCallee(x) == pf && idx < len(x.Common().Args) {
+					sites++
+					cs := di.kindsOf(x.Common().Args[idx], i.Block(), depth+1)
+					if cs == nil {
+						okAll = false
+						return
+					}
+					if fromCallers == nil {
+						fromCallers = map[int]bool{}
+					}
+					for k := range cs {
+						fromCallers[k] = true
+					}
+				}
+			}
+			// the function used as a value: callers unknown
+			for _, op := range i.Operands(nil) {
+				if op != nil && *op == ssa.Value(pf) {
+					if ci, isCall := i.(ssa.CallInstruction); !isCall || ci.Common().Value != ssa.Value(pf) {
+						okAll = false
+					}
+				}
+			}
+		})
+	}
+	if sites == 0 || !okAll {
+		return set
+	}
+	if set == nil {
+		return fromCallers
+	}
+	out := map[int]bool{}
+	for k := range set {
+		if fromCallers[k] {
+			out[k] = true
+		}
+	}
+	return out
 }
 
 // kindSetAt: possible values (0..26) of the integer SSA value kv on entry to block blk, from comparisons with
@@ -1171,6 +1236,10 @@ func (di *dynInterp) validGuarded(c *ssa.Call) bool {
 				return true
 			}
 		}
+	}
+	// a value whose kind is known not to be Invalid is valid (also established at the call sites of a helper)
+	if set := di.kindsOf(recv, c.Block(), 0); set != nil && !set[int(reflect.Invalid)] && len(set) < 27 {
+		return true
 	}
 	return false
 }
